@@ -518,7 +518,10 @@ Inductive op6 :=
 | OSync (hidden : list Z)          (* syncShards, then every scheduler's key *)
 | OKey (s : Z) (hidden : list Z)   (* one worker item *)
 | OClear                           (* ConfigMap reload / cache outlived its retention *)
-| ODelete (s : Z).                 (* somebody deleted the NodeShard *)
+| ODelete (s : Z)                  (* somebody deleted the NodeShard *)
+| OSyncFaulty (failed : list Z).   (* a global sync during which every Create/Update of the NodeShards in
+                                      [failed] fails through all of the worker's retries: the key is dropped,
+                                      the NodeShard stays as it was (or absent) *)
 
 Definition step6 (mg : manager) (nodes : list node) (m : metrics) (st : cstate6) (o : op6) : cstate6 :=
   match o with
@@ -537,6 +540,11 @@ Definition step6 (mg : manager) (nodes : list node) (m : metrics) (st : cstate6)
     end
   | OClear => {| c_api := c_api st; c_cache := None |}
   | ODelete s => {| c_api := premove (c_api st) s; c_cache := c_cache st |}
+  | OSyncFaulty failed =>
+    let calc := snd (reconcile mg (list_nodes nodes) m) in
+    {| c_api := fold_left (fun api e => if existsb (Z.eqb (fst e)) failed then api
+                                        else apply6 api [] (fst e) (snd e)) calc (c_api st);
+       c_cache := Some calc |}
   end.
 
 Fixpoint ops_history (mg : manager) (st : cstate6) (steps : list (list node * metrics * list op6))
